@@ -15,6 +15,7 @@
 -/
 import Gzx.Proofs.DetWhiteRect
 import Gzx.Proofs.DetQRDetector
+import Gzx.Proofs.DetDM
 namespace Gzx.Properties.C06Det
 open Gzx Gzx.Det
 
@@ -221,5 +222,35 @@ theorem qr_detect_never_panics {F : Type} (o : FOps F) (hmax : QR.MaxEqSelf o) (
 -- non-vacuity of the hypothesis: the toy interpretation satisfies it (IEEE binary64 does as well:
 -- MaxFloat64 is not a NaN)
 example : QR.MaxEqSelf toyOps := by unfold QR.MaxEqSelf; decide
+
+/-! ## datamatrix/detector -/
+
+/-- `transitionsBetween` for ANY two float points (the detector passes points up to two pixels outside
+    the image): a count ≥ 0, no fault; the walk takes `max(|Δx|,|Δy|)` steps.  Hence every divisor
+    `float64(tr+1)`, `float64(div+1)` in `shiftPoint` / `correctTopRight` is at least 1. -/
+theorem dm_transitions_total {F : Type} (o : FOps F) (img : Img) (p q : FPt F) :
+    Sat NoFault (fun r => 0 ≤ r) (DM.transitionsBetween o img.rdGo img.h p q) :=
+  DM.transitionsBetween_sat o (rdGo_ok img) img.h p q
+
+/-- **Data Matrix `Detect` up to the sampling call is total**: WhiteRectangleDetector, `detectSolid1/2`
+    (`cornerPoints[0..3]` exist: the rectangle detector returns exactly four points),
+    `correctTopRight` (nil → NotFoundException), `shiftToModuleCenter`, dimension logic — the outcome is
+    NotFoundException or four points with EVEN dimensions ≥ 2 for `sampleGrid` (C19). -/
+theorem dm_detect_total {F : Type} (o : FOps F) (img : Img) :
+    Sat OnlyNotFound DM.GoodDims (DM.detect o img.rdGo img.w img.h) := by
+  unfold DM.detect
+  unfold WRD.newFromImage
+  rcases wrd_new_total img.w img.h 10 (Int.tdiv img.w 2) (Int.tdiv img.h 2) with ⟨d, hd, _⟩ | he
+  · rw [hd]
+    show Sat OnlyNotFound _ (WRD.detect o img.rdGo img.w img.h d >>= _)
+    refine Sat.bind (wrd_detect_total o img d) ?_
+    intro pts hpts
+    exact DM.locate_sat o (rdGo_ok img) img.w img.h _ (by rw [List.length_map]; exact hpts.1)
+  · rw [he]; exact rfl
+
+theorem dm_detect_never_panics {F : Type} (o : FOps F) (img : Img) :
+    (∀ why, DM.detect o img.rdGo img.w img.h ≠ .error (.panic why)) ∧
+    DM.detect o img.rdGo img.w img.h ≠ .error .fuel :=
+  ⟨(dm_detect_total o img).no_panic onlyNotFound_no_panic, (dm_detect_total o img).no_fuel onlyNotFound_no_fuel⟩
 
 end Gzx.Properties.C06Det
